@@ -333,6 +333,37 @@ func pagingCheck(env *Env, w *world.World, db *sql.DB, api *API) *Violation {
 		}
 		rows.Close()
 	}
+	// Which actions involve which address, computed from the action rows
+	// themselves (input address, transfer outputs), not from the lookup index.
+	involved := map[string]map[string]bool{}
+	if rows, err := db.Query(`SELECT entry_hash, tx_index, from_address, outputs FROM pn_history_transaction`); err == nil {
+		for rows.Next() {
+			var hsh, from, outs []byte
+			var idx int
+			if rows.Scan(&hsh, &idx, &from, &outs) != nil {
+				continue
+			}
+			id := fmt.Sprintf("%d-%x", idx, hsh)
+			var fa factom.FAAddress
+			copy(fa[:], from)
+			addrs := []string{fa.String()}
+			var os []struct {
+				Address string `json:"address"`
+			}
+			if len(outs) > 0 && json.Unmarshal(outs, &os) == nil {
+				for _, o := range os {
+					addrs = append(addrs, o.Address)
+				}
+			}
+			for _, a := range addrs {
+				if involved[a] == nil {
+					involved[a] = map[string]bool{}
+				}
+				involved[a][id] = true
+			}
+		}
+		rows.Close()
+	}
 	filters := []struct {
 		p   map[string]interface{}
 		sql string
@@ -405,6 +436,14 @@ func pagingCheck(env *Env, w *world.World, db *sql.DB, api *API) *Violation {
 					if n > 1 {
 						return &Violation{Prop: "C17", Oracle: "paging", Signature: "an action is returned more than once across pages",
 							Detail: fmt.Sprintf("query %s: %s returned %d times", key, id, n)}
+					}
+				}
+				if a, ok := base.params["address"].(string); ok && len(f.p) == 0 {
+					for id := range involved[a] {
+						if got[id] == 0 {
+							return &Violation{Prop: "C17", Oracle: "address-history-complete", Signature: "an action involving an address is not returned by the address query",
+								Detail: fmt.Sprintf("address %s: action %s (input or output of that address) is missing from get-transactions; %d returned, %d involve the address", a, id, total, len(involved[a]))}
+						}
 					}
 				}
 				if total != want || (reported != -1 && reported != want) {
